@@ -70,10 +70,10 @@ func gen(t *rapid.T) Case {
 			c.Every = int64(rapid.IntRange(1, 30).Draw(t, "everyK")) * u
 		}
 		c.Align = rapid.Bool().Draw(t, "align")
-		// fillPeriod is documented to apply only if the period is greater than every
-		if c.Period > c.Every {
-			c.Fill = rapid.Bool().Draw(t, "fill")
-		}
+		// fillPeriod is documented to apply only if the period is greater than every; with
+		// every >= period both readings are accepted (see run), but the first window must span
+		// a full period either way
+		c.Fill = rapid.Bool().Draw(t, "fill")
 	}
 	step := c.Every
 	if step == 0 || c.Count {
@@ -332,15 +332,50 @@ func run(c Case, cc *kit.Case) {
 	}
 
 	// compare
+	sig, msg := compare(c, obs, exp)
+	if sig != "" && c.Fill && !c.Count && c.Every != 0 && c.Every >= c.Period {
+		// fillPeriod with every >= period: "This only applies if the period is greater than the
+		// every value" (pipeline/window.go). An implementation that ignores the flag here is as
+		// documented, provided what the statement demands of fillPeriod still holds: no window
+		// reaches back before the group's first point.
+		c2 := c
+		c2.Fill = false
+		exp2 := reference(c2, pts)
+		first := map[int]int64{}
+		for i, p := range pts {
+			gi := 0
+			if c.GroupBy {
+				gi = c.Order[i]
+			}
+			if _, ok := first[gi]; !ok {
+				first[gi] = p.Time
+			}
+		}
+		full := true
+		for _, e := range exp2 {
+			if e.T-c.Period < first[e.group] {
+				full = false
+			}
+		}
+		if s2, _ := compare(c, obs, exp2); s2 == "" && full {
+			cc.Label("fillPeriod-ignored-with-every>=period(as documented)")
+			return
+		}
+	}
+	if sig != "" {
+		cc.Fail(sig, "%s", msg)
+	}
+}
+
+// compare checks the observed emissions against an expected schedule; sig == "" means equal.
+func compare(c Case, obs []kit.Obs, exp []expBatch) (string, string) {
 	if len(obs) != len(exp) {
-		cc.Fail("window/emission-count", "script %s: %d windows emitted, reference says %d\nobserved: %s\nexpected: %s", c.script(), len(obs), len(exp), fmtObs(obs), fmtExp(exp))
-		return
+		return "window/emission-count", fmt.Sprintf("script %s: %d windows emitted, reference says %d\nobserved: %s\nexpected: %s", c.script(), len(obs), len(exp), fmtObs(obs), fmtExp(exp))
 	}
 	for i, e := range exp {
 		o := obs[i]
 		if o.B == nil {
-			cc.Fail("window/not-a-batch", "emission %d is not a batch", i)
-			return
+			return "window/not-a-batch", fmt.Sprintf("emission %d is not a batch", i)
 		}
 		b := o.B
 		wantTags := map[string]string(nil)
@@ -351,25 +386,22 @@ func run(c Case, cc *kit.Case) {
 			wantGroup = "host=" + h
 		}
 		if b.Name != "m" || !reflect.DeepEqual(b.Tags, wantTags) || b.Group != wantGroup {
-			cc.Fail("window/batch-identity", "emission %d: name=%q tags=%v group=%q, want m %v %q", i, b.Name, b.Tags, b.Group, wantTags, wantGroup)
-			return
+			return "window/batch-identity", fmt.Sprintf("emission %d: name=%q tags=%v group=%q, want m %v %q", i, b.Name, b.Tags, b.Group, wantTags, wantGroup)
 		}
 		if b.TMax != e.T {
-			cc.Fail("window/emit-time", "script %s: emission %d (group %d) has end time %d, reference %d (delta %d)\nobserved: %s\nexpected: %s", c.script(), i, e.group, b.TMax, e.T, b.TMax-e.T, fmtObs(obs), fmtExp(exp))
-			return
+			return "window/emit-time", fmt.Sprintf("script %s: emission %d (group %d) has end time %d, reference %d (delta %d)\nobserved: %s\nexpected: %s", c.script(), i, e.group, b.TMax, e.T, b.TMax-e.T, fmtObs(obs), fmtExp(exp))
 		}
 		if len(b.Points) != len(e.pts) {
-			cc.Fail("window/content", "script %s: emission %d (group %d, T=%d) holds %d points, reference %d\nobserved: %s\nexpected: %s", c.script(), i, e.group, e.T, len(b.Points), len(e.pts), fmtObs(obs), fmtExp(exp))
-			return
+			return "window/content", fmt.Sprintf("script %s: emission %d (group %d, T=%d) holds %d points, reference %d\nobserved: %s\nexpected: %s", c.script(), i, e.group, e.T, len(b.Points), len(e.pts), fmtObs(obs), fmtExp(exp))
 		}
 		for j, p := range e.pts {
 			q := b.Points[j]
 			if q.Time != p.Time || !reflect.DeepEqual(q.Fields, p.Fields) || !reflect.DeepEqual(q.Tags, p.Tags) {
-				cc.Fail("window/content", "script %s: emission %d (group %d, T=%d) point %d is %+v, reference %+v", c.script(), i, e.group, e.T, j, q, p)
-				return
+				return "window/content", fmt.Sprintf("script %s: emission %d (group %d, T=%d) point %d is %+v, reference %+v", c.script(), i, e.group, e.T, j, q, p)
 			}
 		}
 	}
+	return "", ""
 }
 
 func fmtObs(obs []kit.Obs) string {
@@ -403,6 +435,7 @@ func fmtExp(exp []expBatch) string {
 var assumptions = []string{
 	"timestamps are non-decreasing per group (the property's quantifier); groups may be interleaved arbitrarily",
 	"fillPeriod is generated only when period > every (pipeline/window.go: 'only applies if the period is greater than the every value')",
+	"fillPeriod with every >= period: pipeline/window.go documents that the flag only applies if the period is greater than every, the statement says the first window is delayed to a full period: the reference applies the flag; an implementation that ignores it there is accepted as long as no window reaches back before the group's first point",
 	"align uses Go's time.Truncate (multiples of 'every' counted from the zero time); the reference calls the same stdlib function",
 	"with align+fillPeriod the first edge is the first multiple of 'every' strictly greater than t0+period (comment in newWindowByTime)",
 }
